@@ -154,8 +154,8 @@ fn compress(kind: &str, input: &[u8], chunk: usize, frames: usize, level: i32, w
     Ok(out)
 }
 
-type ZstdSelf = ZstdLineLender<BufReader<zstd::Decoder<'static, BufReader<File>>>>;
-type GzipSelf = GzipLineLender<BufReader<flate2::read::GzDecoder<BufReader<File>>>>;
+// (from_path / from_file are defined on one particular instantiation of the compressed lenders; the calls
+// below leave it to be inferred, so that the executor does not depend on how that instantiation is spelled)
 
 /// Builds the lender of the episode. The temporary file (if any) is returned
 /// so that it outlives the lender.
@@ -212,11 +212,11 @@ fn open(ep: &Value) -> anyhow::Result<(Box<dyn DynL>, Option<tempfile::NamedTemp
         "line_file" => wrap::<str, _>(LineLender::from_file(File::open(path.unwrap())?), &take),
         "line_path" => wrap::<str, _>(LineLender::from_path(path.unwrap())?, &take),
         "zstd_cursor" => wrap::<str, _>(ZstdLineLender::new(Cursor::new(payload))?, &take),
-        "zstd_file" => wrap::<str, _>(ZstdSelf::from_file(File::open(path.unwrap())?)?, &take),
-        "zstd_path" => wrap::<str, _>(ZstdSelf::from_path(path.unwrap())?, &take),
+        "zstd_file" => wrap::<str, _>(ZstdLineLender::from_file(File::open(path.unwrap())?)?, &take),
+        "zstd_path" => wrap::<str, _>(ZstdLineLender::from_path(path.unwrap())?, &take),
         "gzip_cursor" => wrap::<str, _>(GzipLineLender::new(Cursor::new(payload))?, &take),
-        "gzip_file" => wrap::<str, _>(GzipSelf::from_file(File::open(path.unwrap())?)?, &take),
-        "gzip_path" => wrap::<str, _>(GzipSelf::from_path(path.unwrap())?, &take),
+        "gzip_file" => wrap::<str, _>(GzipLineLender::from_file(File::open(path.unwrap())?)?, &take),
+        "gzip_path" => wrap::<str, _>(GzipLineLender::from_path(path.unwrap())?, &take),
         "fromiter" => {
             let items: Vec<String> = ep["items"]
                 .as_array()
